@@ -65,6 +65,11 @@ Definition service_of (k : kind) : string :=
 Definition passes_detached (k : kind) : bool :=
   match k with AuthnRequest | LogoutRequest => true | _ => false end.
 
+(* Entity.unravel looks up soap.parse_soap_enveloped_saml_<msgtype>; soap.py has no such function for
+   authz_decision_query: the AttributeError becomes UnravelError, whatever the envelope holds *)
+Definition has_soap_parser (k : kind) : bool :=
+  match k with AuthzDecisionQuery => false | _ => true end.
+
 (* ---- Config.endpoint ---- *)
 Inductive epspec := EP (url bind : string) | Bare (url : string).
 
@@ -110,7 +115,8 @@ Definition known_binding (b : option string) : bool :=
    correctly_signed_message raises or returns None).
    For (POST | Artifact) x (WXml | WSoap) the real outcome depends on the bytes (UnravelError or a
    parse failure later); both reject; the model answers UFail and the correspondence does not
-   generate those combinations. *)
+   generate those combinations.
+   kind_ok, for SOAP: the body element is of the expected class AND soap.py has a parser for it. *)
 Definition unravel (binding : option string) (w : wire) (kind_ok : bool) : unraveled :=
   if negb (known_binding binding) then UBadBinding else
   match binding with
@@ -251,7 +257,7 @@ Section Model.
     let c := cfg x in
     let b := msg x in
     let kind_ok := kind_eqb (b_kind b) (expected x) in
-    match unravel (binding x) (enc x) kind_ok with
+    match unravel (binding x) (enc x) (kind_ok && has_soap_parser (expected x)) with
     | UBadBinding => RejBinding
     | UFail => RejUnravel
     | UText => RejSig
@@ -278,6 +284,46 @@ Section Model.
       else if negb (dest_ok (receiver_addrs c (service_of (expected x)) (binding x)) b) then RejDest
       else if negb (issue_instant_ok c (now x) b) then RejStale
       else Accept
+    end.
+
+  (* ---- the life of a process ----
+     Several receivers (Server / Saml2Client objects) live in one process, each with the metadata it
+     was built from; Entity.reload_metadata / MetadataStore.reload replaces the metadata of ONE of
+     them (a failed reload restores the previous one, mdstore.py MetadataStore.reload), requests
+     arrive in any order.  Nothing else is remembered between requests: no class-level or
+     per-object cache, no trace of earlier requests — a request is judged against the metadata its
+     receiver holds at that moment. *)
+  Definition mdfun := option string -> list cert.
+
+  Definition with_md (x : input) (m : mdfun) : input :=
+    let c := cfg x in
+    Build_input
+      (Build_config (etype c) (eps c) (want_signed c) (only_valid_cert c) (time_diff c) (only_md c) m (cert_valid c))
+      (now x) (expected x) (binding x) (enc x) (origdoc x) (msg x) (env x) (relay_state x) (sigalg x) (signature x).
+
+  Inductive op :=
+    | Req (r : nat) (x : input)          (* a request handed to receiver r (md_certs of x's configuration is ignored) *)
+    | Reload (r : nat) (m : mdfun)       (* successful metadata reload of receiver r *)
+    | ReloadFailed (r : nat).            (* reload that raised: metadata restored *)
+
+  Definition upd (st : nat -> mdfun) (r : nat) (m : mdfun) : nat -> mdfun :=
+    fun r' => if Nat.eqb r' r then m else st r'.
+
+  (* metadata of every receiver after the operations *)
+  Fixpoint state_after (st : nat -> mdfun) (ops : list op) : nat -> mdfun :=
+    match ops with
+    | [] => st
+    | Reload r m :: t => state_after (upd st r m) t
+    | _ :: t => state_after st t
+    end.
+
+  (* the requests as they were judged (effective input, verdict), in order *)
+  Fixpoint run_life (st : nat -> mdfun) (ops : list op) : list (input * verdict) :=
+    match ops with
+    | [] => []
+    | Req r x :: t => (with_md x (st r), parse_request (with_md x (st r))) :: run_life st t
+    | Reload r m :: t => run_life (upd st r m) t
+    | ReloadFailed _ :: t => run_life st t
     end.
 End Model.
 
@@ -314,3 +360,10 @@ Arguments try_certs {cert esig}.
 Arguments check_signature {cert esig}.
 Arguments redirect_sig_ok {cert dsig doc}.
 Arguments parse_request {cert esig dsig doc}.
+Arguments with_md {cert esig dsig doc}.
+Arguments Req {cert esig dsig doc}.
+Arguments Reload {cert esig dsig doc}.
+Arguments ReloadFailed {cert esig dsig doc}.
+Arguments upd {cert}.
+Arguments state_after {cert esig dsig doc}.
+Arguments run_life {cert esig dsig doc}.
